@@ -75,11 +75,15 @@ VMapGeoms == {"ortho2", "four3"}
 
 \* the 'true' model behind the experimental values: anisotropy ratio, rotation (degrees), nested structures
 Truth(t) ==
-  CASE t = "iso"      -> [ratio |-> 1, angle |-> 0,  nest |-> 2]
-    [] t = "simple"   -> [ratio |-> 1, angle |-> 0,  nest |-> 1]
-    [] t = "aniso"    -> [ratio |-> 3, angle |-> 0,  nest |-> 2]
-    [] t = "anisorot" -> [ratio |-> 3, angle |-> 40, nest |-> 1]
-Truths == {"iso", "simple", "aniso", "anisorot"}
+  CASE t = "iso"      -> [ratio |-> 1, angle |-> 0,  nest |-> 2, nu |-> 0]
+    [] t = "simple"   -> [ratio |-> 1, angle |-> 0,  nest |-> 1, nu |-> 0]
+    [] t = "aniso"    -> [ratio |-> 3, angle |-> 0,  nest |-> 2, nu |-> 0]
+    [] t = "anisorot" -> [ratio |-> 3, angle |-> 40, nest |-> 1, nu |-> 0]
+    \* nugget + one MATERN (K-Bessel) structure of shape parameter nu / 1000: a smooth one (3: well above every
+    \* bound put on the parameter) and a rough one (0.3: well below)
+    [] t = "matern-hi" -> [ratio |-> 1, angle |-> 0, nest |-> 1, nu |-> 3000]
+    [] t = "matern-lo" -> [ratio |-> 1, angle |-> 0, nest |-> 1, nu |-> 300]
+Truths == {"iso", "simple", "aniso", "anisorot", "matern-hi", "matern-lo"}
 
 \* lists of basic structures (ECov keys; MATERN is the K-Bessel structure with its shape parameter)
 TypeLists ==
@@ -164,6 +168,9 @@ ConsSet(c) ==
     [] c = "p-eq"           -> << It("param", "PARAM", 0, 0, "EQUAL", M) >>
     [] c = "p-lo"           -> << It("param", "PARAM", 0, 0, "LOWER", 1500000) >>
     [] c = "p-up"           -> << It("param", "PARAM", 0, 0, "UPPER", 500000) >>
+    [] c = "p-up2"          -> << It("param", "PARAM", 0, 0, "UPPER", 1200000) >>
+    [] c = "p-eq07"         -> << It("param", "PARAM", 0, 0, "EQUAL", 700000) >>
+    [] c = "p-lo08"         -> << It("param", "PARAM", 0, 0, "LOWER", 800000) >>
     [] c = "p-box"          -> << It("param", "PARAM", 0, 0, "LOWER", 600000), It("param", "PARAM", 0, 0, "UPPER", 900000) >>
     \* combinations shown in the documentation (courses 04_Variography, 09_SPDE; demo Tuto_2D)
     [] c = "doc-r-up-s-lo"  -> << It("franged", "RANGE", 0, 0, "UPPER", 20 * M), It("franged", "SILL", 0, 0, "LOWER", 30000) >>
@@ -176,8 +183,8 @@ ConsQuick == {"r0-up-out", "r0-up-in", "r0-lo-out", "r0-eq", "r0-box", "r0-box-e
               "r1-eq", "rl1-up-out", "r2-up-out", "s0-up", "s0-lo", "sr-lo", "sr-eq", "s-neg", "s10-eq", "a-eq", "a-box",
               "al-eq", "p-eq", "p-lo", "p-up", "doc-r-up-s-lo", "doc-r-eq-s-eq", "doc-spde", "r-a-eq",
               "s0-box-high", "s0-box-high-rev", "s0-box-high-dup", "s0-box-low", "s0-box-low-rev", "sr-box-high", "sr-box-high-rev",
-              "r0-box-rev", "p-box-rev"}
-ConsRich  == {"r0-lo-in", "r0-eq-true", "rl-lo-far", "r2-eq", "r01-eq", "s0-eq", "sr-up", "sl-eq", "s11-up", "a-eq0", "a-lo", "p-box"}
+              "r0-box-rev", "p-box-rev", "p-box", "p-up2", "p-eq07", "p-lo08"}
+ConsRich  == {"r0-lo-in", "r0-eq-true", "rl-lo-far", "r2-eq", "r01-eq", "s0-eq", "sr-up", "sl-eq", "s11-up", "a-eq0", "a-lo"}
 ConsNames == ConsQuick \cup (IF Rich THEN ConsRich ELSE {})
 
 SelIdx(sel, types) ==           \* 1-based index of the designated structure, 0 when there is none
@@ -248,7 +255,17 @@ BaseOf(variant) ==
     [] variant = "E" -> [entry |-> "fit", geom |-> "xz3", truth |-> "simple", recipe |-> "noisy", empty |-> "none",
                          types |-> <<"NUGGET", "SPHERICAL">>, cons |-> "none", csill |-> 0, opt |-> {},
                          wmode |-> 2, maxiter |-> -1]
+    \* a MATERN structure offered to data that are smoother (F) / rougher (G) than every bound put on its shape
+    \* parameter: each kind of bound on PARAM binds in one of the two
+    [] variant = "F" -> [entry |-> "fit", geom |-> "ortho2", truth |-> "matern-hi", recipe |-> "exact", empty |-> "none",
+                         types |-> <<"NUGGET", "MATERN">>, cons |-> "none", csill |-> 0, opt |-> {},
+                         wmode |-> 2, maxiter |-> -1]
+    [] variant = "G" -> [entry |-> "fit", geom |-> "ortho2", truth |-> "matern-lo", recipe |-> "exact", empty |-> "none",
+                         types |-> <<"NUGGET", "MATERN">>, cons |-> "none", csill |-> 0, opt |-> {},
+                         wmode |-> 2, maxiter |-> -1]
 Variants == DOMAIN VaryOf
+\* the bases F and G exist for the constraints on the shape parameter: only these dimensions are varied from them
+DimsOf(variant) == IF variant \in {"F", "G"} THEN {"cons", "recipe"} ELSE Dims
 
 Values(d) ==
   CASE d = "entry"   -> Entries
@@ -288,10 +305,13 @@ Valid(r) ==
   /\ r.empty = "dir" => (NDir(r) >= 2 \/ r.entry = "vmap")
   /\ r.csill > 0 => \A i \in 1..Len(ConsSet(r.cons)) : ConsSet(r.cons)[i].elem # "SILL"
   /\ Affordable(r)
+  \* from the bases F and G only the constraint sets that involve the shape parameter
+  /\ r.variant \in {"F", "G"} /\ r.cons # "none" => \E i \in 1..Len(ConsSet(r.cons)) : ConsSet(r.cons)[i].sel = "param"
 
 Request(variant, nvar) == [variant |-> variant, nvar |-> nvar, varied |-> {}] @@ BaseOf(variant)
 
 MayVary(r, d) ==
+  /\ d \in DimsOf(r.variant)
   /\ d \notin r.varied
   /\ Cardinality(r.varied) < VaryOf[r.variant]
   /\ \A e \in r.varied : {d, e} \in PairDims
